@@ -151,6 +151,8 @@ impl<'a> Tr<'a> {
                 let v = self.pure(args[0], env, None)?;
                 return match v.ty {
                     Ty::Int(Some(f)) if f.widens_to(t) => Ok(Val { s: v.s, ty: Ty::int(t) }),
+                    // a local initialised with an unsuffixed literal: its type is whatever makes `from` well typed
+                    Ty::Int(None) => Ok(Val { s: v.s, ty: Ty::int(t) }),
                     Ty::Bool => Ok(Val { s: format!("(if {} then 1 else 0)", v.s), ty: Ty::int(t) }),
                     _ => Err(unsupported(at, &format!("`{}::from` on {}", tname, v.ty.show()))),
                 };
